@@ -1,104 +1,179 @@
-/-! Prototype: BookNode score propagation (bookbuild.cpp:38-240) as a functional program over an array of nodes. -/
+/-!
+# BookBuild: nodes, the book, and the per-node equations (bookbuild.cpp:86-215)
+
+Executable model of `BookBuild::BookNode` / `BookBuild::BookData`.  A book is an array of nodes (index = creation
+order, the root is node 0); links hold node indices.  Every per-node computation is a *pure kernel* over the fields of
+the node and the list of what it reads from its neighbours (`CInfo` from children, `PInfo` from parents), so that
+"what does this equation depend on" is visible in the types.
+-/
 namespace Bk
 
 def MATE0 : Int := 32000
-def INVALID : Int := -32765      -- UNKNOWN_SCORE + 2
-def IGNORE : Int := -32766       -- UNKNOWN_SCORE + 1
+/-- `SearchConst::UNKNOWN_SCORE + 2` -/
+def INVALID : Int := -32765
+/-- `SearchConst::UNKNOWN_SCORE + 1` -/
+def IGNORE : Int := -32766
 def INTMAX : Int := 2147483647
+/-- `INT_MAX` as the depth of a node that is not linked yet -/
+def DEPTH_INF : Nat := 2147483647
 
-def isWin (s : Int) : Bool := s > MATE0 / 2
-def isLose (s : Int) : Bool := s < -(MATE0 / 2)
+/-- `SearchConst::isWinScore` (`MATE0 / 2 = 16000`) -/
+def isWin (s : Int) : Bool := decide (s > 16000)
+def isLose (s : Int) : Bool := decide (s < -16000)
 
+/-- `BookNode::negateScore` -/
 def negateScore (s : Int) : Int :=
-  if s == IGNORE || s == INVALID then s
+  if s = IGNORE ∨ s = INVALID then s
   else if isWin s then -(s - 1)
   else if isLose s then -(s + 1)
   else -s
 
 structure Node where
-  depth : Nat := 1000000           -- INT_MAX stand-in
-  bestMove : Nat := 0
+  key : Nat := 0
+  depth : Nat := DEPTH_INF
+  bestMove : Nat := 0                 -- compressed move, 0 = empty move
   search : Int := INVALID
+  time : Nat := 0
   nm : Int := INVALID
   ecW : Int := INVALID
   ecB : Int := INVALID
   peW : Int := INVALID
   peB : Int := INVALID
-  children : List (Nat × Nat) := []   -- (compressed move, child id), ordered by move like std::map
-  parents : List (Nat × Nat) := []    -- (compressed move, parent id)
+  children : List (Nat × Nat) := []   -- (compressed move, child index), ordered by move like the std::map
+  parents : List (Nat × Nat) := []    -- (compressed move, parent index), ordered
 deriving Repr, Inhabited, DecidableEq
 
-structure BookData where
-  pending : List Nat := []            -- node ids currently being searched
+/-- `BookData`'s three constants -/
+structure Costs where
   depthCost : Int := 100
   ownCost : Int := 200
   otherCost : Int := 50
+deriving Repr, Inhabited, DecidableEq
 
-abbrev G := Array Node
+structure Book where
+  nodes : Array Node := #[]
+  pending : List Nat := []            -- indices of the positions currently being searched
+  costs : Costs := {}
+deriving Repr, Inhabited, DecidableEq
 
-def nd (g : G) (i : Nat) : Node := g.getD i default
+namespace Book
+def size (b : Book) : Nat := b.nodes.size
+def nd (b : Book) (i : Nat) : Node := b.nodes.getD i default
+def setNode (b : Book) (i : Nat) (n : Node) : Book := { b with nodes := b.nodes.setIfInBounds i n }
+def isPending (b : Book) (i : Nat) : Bool := b.pending.contains i
+end Book
 
-def hasChildMove (n : Node) (mv : Nat) : Option Nat := (n.children.find? (fun e => e.1 == mv)).map (·.2)
+/-- what a node reads from one child -/
+structure CInfo where
+  mv : Nat
+  nm : Int
+  ecW : Int
+  ecB : Int
+deriving Repr, DecidableEq
 
-/-- BookNode::getExpansionCost -/
-def expCost (bd : BookData) (g : G) (n : Node) (child : Option Nat) (white : Bool) : Int :=
-  let wtm := n.depth % 2 == 0
-  let k := if wtm == white then bd.ownCost else bd.otherCost
-  match child with
-  | some c =>
-    let cn := nd g c
-    let moveError := if n.nm == INVALID then 1000 else n.nm - negateScore cn.nm
-    let cost := if white then cn.ecW else cn.ecB
-    if cost != IGNORE && cost != INVALID then cost + bd.depthCost + moveError * k else cost
-  | none =>
-    if (hasChildMove n n.bestMove).isSome then -10000
-    else (n.nm - n.search) * k
+/-- what a node reads from one parent -/
+structure PInfo where
+  nm : Int
+  peW : Int
+  peB : Int
+deriving Repr, DecidableEq
 
-/-- BookNode::computeNegaMax for node i; returns updated graph and "modified" flag -/
-def computeNegaMax (bd : BookData) (g : G) (i : Nat) : G × Bool :=
-  let n := nd g i
+def CInfo.ec (c : CInfo) (white : Bool) : Int := if white then c.ecW else c.ecB
+
+/-- `getExpansionCost(bookData, child, white)` for a real child; `nm` is the node's (already updated) negamax score -/
+def expCostChild (k : Costs) (wtm : Bool) (nm : Int) (c : CInfo) (white : Bool) : Int :=
+  let moveError : Int := if nm = INVALID then 1000 else nm - negateScore c.nm
+  let cost := c.ec white
+  if cost ≠ IGNORE ∧ cost ≠ INVALID then
+    cost + k.depthCost + moveError * (if wtm = white then k.ownCost else k.otherCost)
+  else cost
+
+/-- `getExpansionCost(bookData, nullptr, white)` -/
+def expCostOwn (k : Costs) (wtm : Bool) (nm search : Int) (covered : Bool) (white : Bool) : Int :=
+  if covered then -10000 else (nm - search) * (if wtm = white then k.ownCost else k.otherCost)
+
+def coveredBy (bestMove : Nat) (cs : List CInfo) : Option CInfo := cs.find? (fun c => c.mv == bestMove)
+
+/-- the negamax part of `computeNegaMax` -/
+def calcNm (bestMove : Nat) (search : Int) (cs : List CInfo) : Int :=
   let nm0 : Int :=
-    match hasChildMove n n.bestMove with
-    | some c => if (nd g c).nm != INVALID then IGNORE else n.search
-    | none => n.search
-  let nm : Int := if nm0 != INVALID then n.children.foldl (fun acc e => max acc (negateScore (nd g e.2).nm)) nm0 else nm0
-  let n1 : Node := { n with nm := nm }
-  let isPending := bd.pending.contains i
-  let (ew0, eb0) : Int × Int :=
-    if isPending then (IGNORE, IGNORE)
-    else if n.search == INVALID then (INVALID, INVALID)
-    else if n.search != IGNORE then (expCost bd g n1 none true, expCost bd g n1 none false)
-    else (IGNORE, IGNORE)
-  let ew1 := if n.children.any (fun e => (nd g e.2).ecW == INVALID) then INVALID else ew0
-  let eb1 := if n.children.any (fun e => (nd g e.2).ecB == INVALID) then INVALID else eb0
-  let (ew, eb) := n.children.foldl (fun (acc : Int × Int) e =>
-      let c := nd g e.2
-      let w := if acc.1 != INVALID && c.ecW != IGNORE then
-                 let cost := expCost bd g n1 (some e.2) true
-                 if acc.1 == IGNORE || acc.1 > cost then cost else acc.1
-               else acc.1
-      let b := if acc.2 != INVALID && c.ecB != IGNORE then
-                 let cost := expCost bd g n1 (some e.2) false
-                 if acc.2 == IGNORE || acc.2 > cost then cost else acc.2
-               else acc.2
-      (w, b)) (ew1, eb1)
-  let n2 : Node := { n1 with ecW := ew, ecB := eb }
-  (g.setIfInBounds i n2, nm != n.nm || ew != n.ecW || eb != n.ecB)
+    match coveredBy bestMove cs with
+    | some c => if c.nm ≠ INVALID then IGNORE else search
+    | none => search
+  if nm0 ≠ INVALID then cs.foldl (fun acc c => max acc (negateScore c.nm)) nm0 else nm0
 
-/-- BookNode::computePathError -/
-def computePathError (g : G) (i : Nat) : G × Bool :=
-  let n := nd g i
-  if n.depth == 0 then (g, false) else
-  let (pw, pb) := n.parents.foldl (fun (acc : Int × Int) e =>
-      let p := nd g e.2
-      if p.peW == INVALID || p.peB == INVALID then acc
-      else if n.nm == INVALID || p.nm == INVALID then acc
-      else
-        let delta := p.nm - negateScore n.nm
-        let errW := if n.depth % 2 != 0 then p.peW + delta else p.peW
-        let errB := if n.depth % 2 != 0 then p.peB else p.peB + delta
-        (min acc.1 errW, min acc.2 errB)) (INTMAX, INTMAX)
-  let (pw, pb) := if pw == INTMAX || pb == INTMAX then (INVALID, INVALID) else (pw, pb)
-  (g.setIfInBounds i { n with peW := pw, peB := pb }, pw != n.peW || pb != n.peB)
+/-- one iteration of the last loop of `computeNegaMax` for one colour -/
+def ecStep (k : Costs) (wtm : Bool) (nm : Int) (white : Bool) (acc : Int) (c : CInfo) : Int :=
+  if acc ≠ INVALID ∧ c.ec white ≠ IGNORE then
+    let cost := expCostChild k wtm nm c white
+    if acc = IGNORE ∨ acc > cost then cost else acc
+  else acc
 
+/-- the expansion cost part of `computeNegaMax` for one colour -/
+def calcEc (k : Costs) (pend wtm : Bool) (bestMove : Nat) (search nm : Int) (cs : List CInfo) (white : Bool) : Int :=
+  let e0 : Int :=
+    if pend then IGNORE
+    else if search = INVALID then INVALID
+    else if search ≠ IGNORE then expCostOwn k wtm nm search (coveredBy bestMove cs).isSome white
+    else IGNORE
+  let e1 : Int := if cs.any (fun c => c.ec white == INVALID) then INVALID else e0
+  cs.foldl (ecStep k wtm nm white) e1
+
+/-- (negaMaxScore, expansionCostWhite, expansionCostBlack) as `computeNegaMax` stores them -/
+def calcScores (k : Costs) (pend wtm : Bool) (bestMove : Nat) (search : Int) (cs : List CInfo) : Int × Int × Int :=
+  let nm := calcNm bestMove search cs
+  (nm, calcEc k pend wtm bestMove search nm cs true, calcEc k pend wtm bestMove search nm cs false)
+
+/-- one iteration of the loop of `computePathError` -/
+def peStep (depth : Nat) (nm : Int) (acc : Int × Int) (p : PInfo) : Int × Int :=
+  if p.peW = INVALID ∨ p.peB = INVALID then acc
+  else if nm = INVALID ∨ p.nm = INVALID then acc
+  else
+    let delta := p.nm - negateScore nm
+    let errW := if depth % 2 ≠ 0 then p.peW + delta else p.peW
+    let errB := if depth % 2 ≠ 0 then p.peB else p.peB + delta
+    (min acc.1 errW, min acc.2 errB)
+
+/-- (pathErrorWhite, pathErrorBlack) as `computePathError` stores them; the root keeps what it has -/
+def calcPE (depth : Nat) (nm : Int) (cur : Int × Int) (ps : List PInfo) : Int × Int :=
+  if depth = 0 then cur else
+  let r := ps.foldl (peStep depth nm) (INTMAX, INTMAX)
+  if r.1 = INTMAX ∨ r.2 = INTMAX then (INVALID, INVALID) else r
+
+namespace Book
+
+def childInfos (b : Book) (n : Node) : List CInfo :=
+  n.children.map fun e => let c := b.nd e.2; { mv := e.1, nm := c.nm, ecW := c.ecW, ecB := c.ecB }
+
+def parentInfos (b : Book) (n : Node) : List PInfo :=
+  n.parents.map fun e => let p := b.nd e.2; { nm := p.nm, peW := p.peW, peB := p.peB }
+
+/-- the values `computeNegaMax` would store in node `i` -/
+def scoresOf (b : Book) (i : Nat) : Int × Int × Int :=
+  let n := b.nd i
+  calcScores b.costs (b.isPending i) (n.depth % 2 == 0) n.bestMove n.search (b.childInfos n)
+
+/-- the values `computePathError` would store in node `i` -/
+def pathErrOf (b : Book) (i : Nat) : Int × Int :=
+  let n := b.nd i
+  calcPE n.depth n.nm (n.peW, n.peB) (b.parentInfos n)
+
+def scores3 (n : Node) : Int × Int × Int := (n.nm, n.ecW, n.ecB)
+def pe2 (n : Node) : Int × Int := (n.peW, n.peB)
+
+/-- `BookNode::computeNegaMax`: returns the new book and whether any of the three values changed -/
+def computeNegaMax (b : Book) (i : Nat) : Book × Bool :=
+  let v := b.scoresOf i
+  let n := b.nd i
+  if v = scores3 n then (b, false)
+  else (b.setNode i { n with nm := v.1, ecW := v.2.1, ecB := v.2.2 }, true)
+
+/-- `BookNode::computePathError` -/
+def computePathError (b : Book) (i : Nat) : Book × Bool :=
+  let v := b.pathErrOf i
+  let n := b.nd i
+  if v = pe2 n then (b, false)
+  else (b.setNode i { n with peW := v.1, peB := v.2 }, true)
+
+end Book
 end Bk
